@@ -64,6 +64,14 @@ func coAddr(r *rand.Rand) string {
 	return fmt.Sprintf("%d.%d.%d.%d", 1+r.Intn(250), r.Intn(256), r.Intn(256), 1+r.Intn(250))
 }
 
+// coIDs: an id as the kernel prints it, the unset id (both spellings) included - for every id field, not only auid
+func coIDs(r *rand.Rand) string {
+	if r.Intn(8) == 0 {
+		return []string{"4294967295", "-1"}[r.Intn(2)]
+	}
+	return strconv.Itoa(coID(r))
+}
+
 func coID(r *rand.Rand) int {
 	if r.Intn(2) == 0 {
 		return []int{0, 1000, 1001}[r.Intn(3)]
@@ -102,16 +110,21 @@ func syscallBody(r *rand.Rand, name string, items int) string {
 	if r.Intn(4) == 0 {
 		succ, exit = "no", "-13"
 	}
-	return fmt.Sprintf(`arch=c000003e syscall=%d success=%s exit=%s a0=%x a1=%x a2=%x a3=%x items=%d ppid=%d pid=%d auid=%d uid=%d gid=%d euid=%d suid=%d fsuid=%d egid=%d sgid=%d fsgid=%d tty=pts0 ses=%d comm="%s" exe="/usr/bin/%s" subj=u_%s:r_%s:t_%s:s0 key="k%s"`,
+	return fmt.Sprintf(`arch=c000003e syscall=%d success=%s exit=%s a0=%x a1=%x a2=%x a3=%x items=%d ppid=%d pid=%d auid=%d uid=%s gid=%s euid=%s suid=%s fsuid=%s egid=%s sgid=%s fsgid=%s tty=pts0 ses=%d comm="%s" exe="/usr/bin/%s" subj=u_%s:r_%s:t_%s:s0 key="k%s"`,
 		coSyscalls[name], succ, exit, r.Intn(1<<20), r.Intn(1<<20), r.Intn(1<<20), r.Intn(1<<20), items, 1+r.Intn(30000), 1+r.Intn(30000),
-		[]int{0, 1000, 4294967295}[r.Intn(3)], coID(r), coID(r), coID(r), r.Intn(2000), r.Intn(2000), coID(r), r.Intn(2000), r.Intn(2000),
+		[]int{0, 1000, 4294967295}[r.Intn(3)], coIDs(r), coIDs(r), coIDs(r), coIDs(r), coIDs(r), coIDs(r), coIDs(r), coIDs(r),
 		1+r.Intn(500), coWord(r), coWord(r), coWord(r), coWord(r), coWord(r), coWord(r))
 }
 
 func pathBody(r *rand.Rand, item int, mode int) string {
 	nt := []string{"NORMAL", "PARENT", "CREATE", "DELETE", "UNKNOWN"}[r.Intn(5)]
-	return fmt.Sprintf(`item=%d name="/%s/%s" inode=%d dev=08:%02d mode=0%o ouid=%d ogid=%d rdev=%02d:%02d obj=u_%s:object_r:t_%s:s0 nametype=%s cap_fp=0 cap_fi=0 cap_fe=0 cap_fver=0`,
+	b := fmt.Sprintf(`item=%d name="/%s/%s" inode=%d dev=08:%02d mode=0%o ouid=%d ogid=%d rdev=%02d:%02d obj=u_%s:object_r:t_%s:s0 nametype=%s cap_fp=0 cap_fi=0 cap_fe=0 cap_fver=0`,
 		item, coWord(r), coWord(r), 1+r.Intn(1000000), r.Intn(20), mode, r.Intn(2000), r.Intn(2000), r.Intn(90), r.Intn(90), coWord(r), coWord(r), nt)
+	if r.Intn(6) == 0 { // a PATH record need not carry every field (a name-only or mode-less record of an older kernel)
+		drop := []string{"mode", "inode", "rdev", "ouid", "ogid", "name"}[r.Intn(6)]
+		b = regexp.MustCompile(` `+drop+`=\S+`).ReplaceAllString(b, "")
+	}
+	return b
 }
 
 var stModes = []int{0o100644, 0o100755, 0o040755, 0o040700, 0o020620, 0o060660, 0o010644, 0o120777, 0o140755, 0o104755, 0o102755, 0o041777}
